@@ -271,6 +271,48 @@ Proof. induction fs as [|f r IH]; intros sc off n ipos ioff Hp Hfit Hn Hd; [disc
       cbn [fst snd]. discriminate.
     + destruct (cloop endo limit r (tl sc) (off + span f) (n + 1) ipos ioff) as [[st ds] ws]. cbn [fst snd]. discriminate. Qed.
 
+(* the offset a loop run reaches: never before its start; at least one frame further when the first visible frame is
+   padding or a data frame that is not answered Abort (budget positive, inside the term) *)
+Definition cl_roff (r : (Z * Z * Z * Z) * list dlv * list Z) : Z := let '((a, _, _, _), _, _) := r in a.
+
+Lemma cloop_roff_ge endo limit : forall fs sc off n ipos ioff,
+  frames_pos fs -> off <= cl_roff (cloop endo limit fs sc off n ipos ioff).
+Proof. induction fs as [|f r IH]; intros sc off n ipos ioff Hp; rewrite cloop_eq.
+  - destruct ((n <? limit) && (off <? endo)); cbn [cl_roff]; lia.
+  - apply frames_pos_inv in Hp as [Hf Hr]. pose proof (span_bounds f Hf).
+    destruct ((n <? limit) && (off <? endo)); [|cbn [cl_roff]; lia]. cbv zeta.
+    destruct (is_pad f).
+    + specialize (IH sc (off + span f) n ipos ioff Hr). lia.
+    + destruct (hd Continue sc).
+      * cbn [cl_roff]. lia.
+      * cbn [cl_roff]. lia.
+      * pose proof (IH (tl sc) (off + span f) (n + 1) (ipos + (off + span f - ioff)) (off + span f) Hr) as H1.
+        destruct (cloop endo limit r (tl sc) (off + span f) (n + 1) (ipos + (off + span f - ioff)) (off + span f)) as [[[[[a b] c] d] ds] ws].
+        cbn [cl_roff] in *. lia.
+      * pose proof (IH (tl sc) (off + span f) (n + 1) ipos ioff Hr) as H1.
+        destruct (cloop endo limit r (tl sc) (off + span f) (n + 1) ipos ioff) as [[[[[a b] c] d] ds] ws].
+        cbn [cl_roff] in *. lia. Qed.
+
+Lemma cloop_first_advance endo limit fs sc off n ipos ioff :
+  frames_pos fs -> n < limit -> off < endo -> must_advance sc fs = true ->
+  off < cl_roff (cloop endo limit fs sc off n ipos ioff).
+Proof. intros Hp Hn Ho Hm. destruct fs as [|f r]; [discriminate|]. apply frames_pos_inv in Hp as [Hf Hr].
+  pose proof (span_bounds f Hf). rewrite cloop_eq.
+  assert (E : (n <? limit) && (off <? endo) = true) by lia. rewrite E. cbv zeta.
+  cbn [must_advance] in Hm. destruct (is_pad f); cbn [orb] in Hm.
+  - pose proof (cloop_roff_ge endo limit r sc (off + span f) n ipos ioff Hr). lia.
+  - destruct (hd Continue sc); cbn [is_abort negb] in Hm; try discriminate.
+    + cbn [cl_roff]. lia.
+    + pose proof (cloop_roff_ge endo limit r (tl sc) (off + span f) (n + 1) (ipos + (off + span f - ioff)) (off + span f) Hr) as H1.
+      destruct (cloop endo limit r (tl sc) (off + span f) (n + 1) (ipos + (off + span f - ioff)) (off + span f)) as [[[[[a b] c] d] ds] ws].
+      cbn [cl_roff] in *. lia.
+    + pose proof (cloop_roff_ge endo limit r (tl sc) (off + span f) (n + 1) ipos ioff Hr) as H1.
+      destruct (cloop endo limit r (tl sc) (off + span f) (n + 1) ipos ioff) as [[[[[a b] c] d] ds] ws].
+      cbn [cl_roff] in *. lia. Qed.
+
+Lemma cres_roff fs sc off n ioff base k ab : cl_roff (cres fs sc off n ioff base k ab) = reached off fs k.
+Proof. reflexivity. Qed.
+
 (* ---- what poll_inner's image step gives, for Image::poll and Image::controlled_poll ---- *)
 Definition pk_of (sl : slot) (r : outcome call_result) : Z * slot * list dlv :=
   match r with Ok (Ok n, ds, _, im') => (n, slot_with sl im', ds) | _ => (0, sl, []) end.
@@ -291,7 +333,8 @@ Definition img_facts (m : mode) (sl : slot) (lim : Z) (sc : list action) (res : 
   (forall d, In d ds -> In d (seg_frames o)) /\
   (os_wf o = true ->
      judge_poll_nw lim sc (os_pos o) (os_off o) (os_frames o) (Ok n) (map (frag_obs m (slot_log sl)) ds) (im_pos (slot_image sl')) = true
-     /\ (0 < lim -> has_data (os_frames o) = true -> ds <> [])).
+     /\ (0 < lim -> has_data (os_frames o) = true -> ds <> [])
+     /\ (0 < lim -> must_advance sc (os_frames o) = true -> os_pos o < im_pos (slot_image sl'))).
 
 Lemma img_facts_idle m sl lim sc : slot_ok sl -> im_closed (slot_image sl) = false ->
   (os_wf (oslot_of sl) = true -> False) -> img_facts m sl lim sc (0, sl, []).
@@ -330,7 +373,7 @@ Proof. intros Hok Hopen.
   split; [split; [assumption|split; [congruence|assumption]]|]. split; [rewrite S1; reflexivity|]. split; [congruence|].
   split; [reflexivity|]. split; [reflexivity|]. split; [reflexivity|]. split; [exact Hin|].
   intros Hwf. destruct (Hwfcase Hwf) as (k & ab & Hk & Ha & Hr & Hds & Hp & Hc). inversion Hr; subst n.
-  unfold os_pos, os_off, os_frames. split.
+  unfold os_pos, os_off, os_frames. split; [|split].
   - rewrite Hds, Hp. apply (judge_nw_run m _ bits init); assumption.
   - intros Hlim Hd.
     unfold image_controlled_poll in E. rewrite Hopen in E. rewrite (ctx_sel _ _ _ _ _ Hc) in E. cbn [bind] in E.
@@ -340,7 +383,17 @@ Proof. intros Hok Hopen.
     rewrite Htl in Hpr. specialize (Hpr (wf_frames_fit' _ _ _ _ Hf ltac:(lia)) Hlim Hd).
     rewrite Htl in E. unfold cfinish in E.
     destruct (cloop (2 ^ bits) lim (frames_at bits [sg] (im_pos im)) sc (im_pos im mod 2 ^ bits) 0 (im_pos im) (im_pos im mod 2 ^ bits))
-      as [[[[[a c] b] e] ds0] ws0]. cbn [fst snd] in Hpr. inversion E; subst. exact Hpr. Qed.
+      as [[[[[a c] b] e] ds0] ws0]. cbn [fst snd] in Hpr. inversion E; subst. exact Hpr.
+  - intros Hlim Hm.
+    unfold image_controlled_poll in E. rewrite Hopen in E. rewrite (ctx_sel _ _ _ _ _ Hc) in E. cbn [bind] in E.
+    pose proof Hc as [Htl _ Hwfc _]. destruct (wf_call_facts _ _ _ _ Hwfc) as (_ & _ & _ & _ & Ho & _ & Hf & _).
+    pose proof (wf_frames_pos _ _ _ _ Hf) as Hfp.
+    set (fs := frames_at bits [sg] (im_pos im)) in *. set (off := im_pos im mod 2 ^ bits) in *.
+    destruct (cloop_spec (l_tlen (mk_log bits init se [sg])) lim (im_pos im - off) fs sc off 0 off) as (k' & ab' & Hk' & Ha' & He').
+    replace (im_pos im - off + off) with (im_pos im) in He' by lia.
+    pose proof (cloop_first_advance (l_tlen (mk_log bits init se [sg])) lim fs sc off 0 (im_pos im) off Hfp Hlim ltac:(rewrite Htl; lia) Hm) as Hadv.
+    rewrite He', cres_roff in Hadv. rewrite He', cfinish_cres in E. inversion E; subst.
+    pose proof (pos_after_writes bits im fs Hopen sc k' Hfp) as Hq. fold off in Hq. rewrite Hq. unfold reached, consumed in *. lia. Qed.
 
 (* ---- one pass over the images, judged share by share ---- *)
 Section Pass.
@@ -488,11 +541,47 @@ Proof. intros Hfacts Hg E. destruct imgs as [|sl r]; [reflexivity|]. cbn [map fa
   apply andb_prop in Ec as [Ec Hd]. apply andb_prop in Ec as [Hl Hw].
   inversion Hg as [|? ? (Hok & Hopen & Hraw) _]; subst. cbn [poll_seq] in E. rewrite Hl in E. rewrite Z.sub_0_r in E.
   pose proof (Hfacts sl limit Hok Hopen) as Hf. destruct (pk sl limit) as [[n sl1] sh]. unfold img_facts in Hf.
-  destruct Hf as (_ & _ & _ & _ & _ & _ & A7 & A8). destruct (A8 Hw) as [_ Hpr]. specialize (Hpr ltac:(lia) Hd).
+  destruct Hf as (_ & _ & _ & _ & _ & _ & A7 & A8). destruct (A8 Hw) as (_ & Hpr & _). specialize (Hpr ltac:(lia) Hd).
   destruct (poll_seq pk r limit (0 + n)) as [[rd1 r1] ys]. inversion E; subst.
   destruct sh as [|d sh']; [contradiction|]. cbn [map concat app].
   assert (Hs : f_session (snd d) = slot_session sl) by (apply seg_frames_session; [assumption|apply A7; left; reflexivity]).
   rewrite (Hraw d Hs), fo_session_frag_obs, Hs. destruct sl as [[[[[? ?] ?] ?] ?] ?]. cbn. apply Z.eqb_refl. Qed.
+
+(* ---- Image::poll / Image::controlled_poll leave a committed frame behind whenever they are given a positive limit ---- *)
+Theorem poll_advances sl lim : slot_ok sl -> im_closed (slot_image sl) = false -> os_wf (oslot_of sl) = true ->
+  0 < lim -> os_frames (oslot_of sl) <> [] ->
+  let '(n, sl', ds) := pk_poll sl lim in im_pos (slot_image sl) < im_pos (slot_image sl').
+Proof. intros Hok Hopen Hwf Hlim Hne. pose proof (proj1 (pk_poll_facts Debug sl lim Hok Hopen)) as Hf.
+  destruct (pk_poll sl lim) as [[n sl'] ds]. unfold img_facts in Hf. destruct Hf as (_ & _ & _ & _ & _ & _ & _ & A8).
+  destruct (A8 Hwf) as (_ & _ & Hadv).
+  assert (Hm : must_advance [] (os_frames (oslot_of sl)) = true).
+  { destruct (os_frames (oslot_of sl)) as [|f r]; [contradiction|]. cbn [must_advance hd is_abort negb]. apply orb_true_r. }
+  specialize (Hadv Hlim Hm). destruct sl as [[[[[? ?] ?] ?] ?] ?]. exact Hadv. Qed.
+
+Theorem cpoll_advances salt tab sl lim : slot_ok sl -> im_closed (slot_image sl) = false -> os_wf (oslot_of sl) = true ->
+  0 < lim -> must_advance (script_for salt tab sl) (os_frames (oslot_of sl)) = true ->
+  let '(n, sl', ds) := pk_cpoll salt tab sl lim in im_pos (slot_image sl) < im_pos (slot_image sl').
+Proof. intros Hok Hopen Hwf Hlim Hm. pose proof (proj1 (pk_cpoll_facts Debug salt tab sl lim Hok Hopen)) as Hf.
+  destruct (pk_cpoll salt tab sl lim) as [[n sl'] ds]. unfold img_facts in Hf. destruct Hf as (_ & _ & _ & _ & _ & _ & _ & A8).
+  destruct (A8 Hwf) as (_ & _ & Hadv). specialize (Hadv Hlim Hm). destruct sl as [[[[[? ?] ?] ?] ?] ?]. exact Hadv. Qed.
+
+(* ---- progress: the image the rotation starts with moves forward when it sees a committed frame ---- *)
+Lemma fair_progress_pass m raw pk sc_of osc imgs limit rd imgs' shares ps :
+  (forall sl lim, slot_ok sl -> im_closed (slot_image sl) = false -> img_facts m sl lim (sc_of sl) (pk sl lim)) ->
+  (forall sl, os_wf (oslot_of sl) = true -> osc (oslot_of sl) = sc_of sl) ->
+  Forall (good m raw) imgs ->
+  poll_seq pk imgs limit 0 = (rd, imgs', shares) ->
+  (forall sl', In sl' imgs' -> pos_at ps (slot_id sl') = im_pos (slot_image sl')) ->
+  fair_progress osc (map oslot_of imgs) limit ps = true.
+Proof. intros Hfacts Hosc Hg E Hps. destruct imgs as [|sl r]; [reflexivity|]. cbn [map fair_progress].
+  destruct ((0 <? limit) && os_wf (oslot_of sl) && must_advance (osc (oslot_of sl)) (os_frames (oslot_of sl))) eqn:Ec; [|reflexivity].
+  apply andb_prop in Ec as [Ec Hm]. apply andb_prop in Ec as [Hl Hw]. rewrite (Hosc sl Hw) in Hm.
+  inversion Hg as [|? ? (Hok & Hopen & Hraw) _]; subst. cbn [poll_seq] in E. rewrite Hl in E. rewrite Z.sub_0_r in E.
+  pose proof (Hfacts sl limit Hok Hopen) as Hf. destruct (pk sl limit) as [[n sl1] sh]. unfold img_facts in Hf.
+  destruct Hf as (_ & _ & _ & _ & _ & A6 & _ & A8). destruct (A8 Hw) as (_ & _ & Hadv). specialize (Hadv ltac:(lia) Hm).
+  destruct (poll_seq pk r limit (0 + n)) as [[rd1 r1] ys]. inversion E; subst.
+  assert (Hid : os_id (oslot_of sl) = slot_id sl) by (destruct sl as [[[[[? ?] ?] ?] ?] ?]; reflexivity).
+  rewrite Hid, <- A6, (Hps sl1 (or_introl eq_refl)). lia. Qed.
 
 (* ---- the assembler part ---- *)
 Lemma run1_none : forall xs st, fst (run1 st xs) = None -> st = None.
@@ -745,6 +834,7 @@ Lemma poll_core absent (s : sub slot) bs limit :
   let order := rotation start (map oslot_of (s_images s)) in
   judge_shares (jp_gen osc cnt) cnt order (map raw ds) limit 0 ps = (true, total) /\
   fair_first order (map raw ds) limit = true /\
+  fair_progress osc order limit ps = true /\
   unmoved (map oslot_of absent) ps = true /\
   update_positions (map oslot_of absent) ps = map oslot_of absent /\
   update_positions (map oslot_of (s_images s)) ps = map oslot_of (s_images s') /\
@@ -798,6 +888,9 @@ Proof. intros (Hok & Hopen & Hids & Hrange & Hrr) Hnd. cbv zeta.
   { apply (fair_first_pass m raw pk sc_of (rotation start (s_images s)) limit rd (rotation start (s_images s')) shares);
       [intros; apply pk_facts; assumption|assumption|].
     exact Eseq. }
+  split.
+  { apply (fair_progress_pass m raw pk sc_of osc (rotation start (s_images s)) limit rd (rotation start (s_images s')) shares ps);
+      [intros; apply pk_facts; assumption|exact osc_ok|assumption|exact Eseq|exact Hps_new]. }
   split. { apply unmoved_same. intros sl Hsl. apply Hps_all. apply in_or_app. left. assumption. }
   split. { apply update_positions_same. intros sl Hsl. apply Hps_all. apply in_or_app. left. assumption. }
   split. { apply update_positions_rel.
@@ -836,7 +929,7 @@ Proof. destruct st as [[absent s] bs]. destruct ost as [[[oa op] orr] spec]. int
   pose proof (poll_core m nslots pk_poll (fun _ => []) (fun _ => []) cnt_len eq_refl (pk_poll_facts m) (fun _ _ => eq_refl)
                 absent s bs limit Hinv Hnd) as Hcore. cbv zeta in Hcore.
   destruct (poll_inner pk_poll s limit) as [[[total s'] ds] polled].
-  destruct Hcore as (C1 & C2 & C3 & C4 & C5 & C6 & C7 & C8 & C9 & C10).
+  destruct Hcore as (C1 & C2 & C2b & C3 & C4 & C5 & C6 & C7 & C8 & C9 & C10).
   destruct (assemble bs (map frag_of ds)) as [bs' out] eqn:Ea. cbn [all_slots].
   set (raw := raw_obs m (absent ++ s_images s)) in *.
   set (ps := positions nslots 0 (absent ++ s_images s')) in *.
@@ -848,10 +941,10 @@ Proof. destruct st as [[absent s] bs]. destruct ost as [[[oa op] orr] spec]. int
   split; [|split; [|split]].
   - cbn [judge_sop]. rewrite (sessions_ok_true absent (s_images s) Hnd). cbn [negb]. rewrite C3. cbn [andb].
     rewrite map_length.
-    destruct (rr_next (Z.of_nat (length (s_images s))) (s_rr s)) as [start rr1] eqn:Er. cbn [fst] in C1, C2.
+    destruct (rr_next (Z.of_nat (length (s_images s))) (s_rr s)) as [start rr1] eqn:Er. cbn [fst] in C1, C2, C2b.
     change jp_poll with (jp_gen (fun _ : oslot => []) cnt_len).
     change (fun sh : list fobs => Z.of_nat (length sh)) with cnt_len.
-    rewrite C1, C2, Hs1, Hk. cbn [out_eqb]. rewrite Z.eqb_refl. reflexivity.
+    rewrite C1, C2, C2b, Hs1, Hk. cbn [out_eqb]. rewrite Z.eqb_refl. reflexivity.
   - unfold st_rel, onext20. rewrite C4, C5, map_length. split; [reflexivity|]. split; [reflexivity|]. split; [symmetry; exact C6|].
     intros se. rewrite Hs2. destruct (existsb (fun sl => slot_session sl =? se) (s_images s)) eqn:Ee; [reflexivity|].
     rewrite Hspec. destruct (assemble_session se (map frag_of ds) bs) as [_ Hst]. rewrite Ea in Hst. cbn [fst] in Hst.
@@ -874,15 +967,15 @@ Proof. destruct st as [[absent s] bs]. destruct ost as [[[oa op] orr] spec]. int
   pose proof (poll_core m nslots (pk_cpoll salt tab) (script_for salt tab) (os_script salt tab) (consumed_count salt tab) eq_refl
                 (pk_cpoll_facts m salt tab) (os_script_ok salt tab) absent s bs limit Hinv Hnd) as Hcore. cbv zeta in Hcore.
   destruct (poll_inner (pk_cpoll salt tab) s limit) as [[[total s'] ds] polled].
-  destruct Hcore as (C1 & C2 & C3 & C4 & C5 & C6 & C7 & C8 & C9 & C10). cbn [all_slots].
+  destruct Hcore as (C1 & C2 & C2b & C3 & C4 & C5 & C6 & C7 & C8 & C9 & C10). cbn [all_slots].
   set (raw := raw_obs m (absent ++ s_images s)) in *.
   set (ps := positions nslots 0 (absent ++ s_images s')) in *.
   split; [|split; [|split]].
   - cbn [judge_sop]. rewrite (sessions_ok_true absent (s_images s) Hnd). cbn [negb]. rewrite C3. cbn [andb].
     rewrite map_length.
-    destruct (rr_next (Z.of_nat (length (s_images s))) (s_rr s)) as [start rr1] eqn:Er. cbn [fst] in C1, C2.
+    destruct (rr_next (Z.of_nat (length (s_images s))) (s_rr s)) as [start rr1] eqn:Er. cbn [fst] in C1, C2, C2b.
     change (jp_cpoll salt tab) with (jp_gen (os_script salt tab) (consumed_count salt tab)).
-    rewrite C1, C2. cbn [out_eqb]. rewrite Z.eqb_refl. reflexivity.
+    rewrite C1, C2, C2b. cbn [out_eqb]. rewrite Z.eqb_refl. reflexivity.
   - unfold st_rel, onext20. rewrite C4, C5, map_length. split; [reflexivity|]. split; [reflexivity|]. split; [symmetry; exact C6|exact Hspec].
   - exact C7.
   - unfold sessions_distinct. rewrite C10. exact Hnd. Qed.
@@ -1011,6 +1104,59 @@ Proof. destruct st as [[absent s] bs]. destruct ost as [[[oa op] orr] spec]. int
     rewrite !(map_os_map id g (fun o => os_grow o j)) by (intros sl; apply (slot_grow_facts sl j)). repeat split; auto.
   - exact Hinv'.
   - unfold sessions_distinct. cbn [s_images]. rewrite map_app, !map_slot_sessions, <- map_app by (intros sl; apply (slot_grow_facts sl j)). exact Hnd. Qed.
+
+Lemma mk_frames_ok init se n : forall ss off,
+  Forall (fun s : fspec => let '(typ, flags, flen, k, dtid) := s in 1 <= flen) ss ->
+  frames_pos (mk_frames init se n off ss) /\ Forall (fun f => f_session f = se) (mk_frames init se n off ss).
+Proof. induction ss as [|[[[[typ flags] flen] k] dtid] r IH]; intros off H; [split; constructor|].
+  inversion H; subst. cbn [mk_frames]. destruct (IH (off + span (mk_frame init se n off (typ, flags, flen, k, dtid))) H3) as [A B].
+  split; constructor; auto. Qed.
+
+Lemma slot_roll_facts sl vis claim ss :
+  Forall (fun s : fspec => let '(typ, flags, flen, k, dtid) := s in 1 <= flen) ss ->
+  slot_id (slot_roll sl vis claim ss) = slot_id sl /\ slot_session (slot_roll sl vis claim ss) = slot_session sl /\
+  slot_image (slot_roll sl vis claim ss) = slot_image sl /\ oslot_of (slot_roll sl vis claim ss) = os_roll (oslot_of sl) vis claim ss /\
+  (slot_ok sl -> slot_ok (slot_roll sl vis claim ss)).
+Proof. intros Hss. destruct sl as [[[[[id bits] init] se] sg] im]. cbn [slot_roll oslot_of os_roll].
+  destruct (im_pos im =? (seg_n sg + 1) * 2 ^ bits).
+  - split; [reflexivity|]. split; [reflexivity|]. split; [reflexivity|]. split; [reflexivity|].
+    intros (Hb & Hs & Hsg). cbn [slot_ok build_seg]. split; [assumption|]. split; [assumption|].
+    destruct (mk_frames_ok init se (seg_n sg + 1) ss 0 Hss) as [P Q]. cbn [seg_ok]. repeat split; try assumption. lia.
+  - split; [reflexivity|]. split; [reflexivity|]. split; [reflexivity|]. split; [reflexivity|]. intros H; exact H. Qed.
+
+Theorem sroll_step m nslots ost st id vis claim ss :
+  Forall (fun s : fspec => let '(typ, flags, flen, k, dtid) := s in 1 <= flen) ss ->
+  st_rel ost st -> st_inv nslots st -> sessions_distinct st ->
+  let '(ob, st') := sstep m nslots st (SRoll id vis claim ss) in
+  judge_sop ost (SRoll id vis claim ss) ob = true /\ st_rel (onext20 ost (SRoll id vis claim ss) ob) st' /\ st_inv nslots st' /\ sessions_distinct st'.
+Proof. intros Hss. destruct st as [[absent s] bs]. destruct ost as [[[oa op] orr] spec]. intros (-> & -> & -> & Hspec) Hinv Hnd.
+  unfold sessions_distinct in Hnd. cbn [sstep all_slots s_images s_rr].
+  set (g := fun sl => slot_roll sl vis claim ss).
+  pose proof (fun sl => slot_roll_facts sl vis claim ss Hss) as Hfacts.
+  destruct Hinv as (H1 & H2 & H3 & H4 & H5).
+  assert (Hinv' : st_inv nslots (map_slot id g absent, mkSub (map_slot id g (s_images s)) (s_rr s), bs)).
+  { unfold st_inv. cbn [s_images s_rr]. rewrite Forall_app in H1, H4. destruct H1 as [H1a H1b]. destruct H4 as [H4a H4b].
+    split; [apply Forall_app; split; apply map_slot_Forall; auto; intros sl; apply (Hfacts sl)|].
+    split; [apply map_slot_Forall; [|assumption]; intros sl Hsl; unfold g; rewrite (proj1 (proj2 (proj2 (Hfacts sl)))); assumption|].
+    split; [rewrite map_app, !map_slot_ids, <- map_app by (intros sl; apply (Hfacts sl)); assumption|].
+    split; [|assumption]. apply Forall_app. split; apply map_slot_Forall; auto; intros sl Hsl; unfold g; rewrite (proj1 (Hfacts sl)); assumption. }
+  set (all' := map_slot id g absent ++ map_slot id g (s_images s)).
+  assert (Hps : forall sl, In sl (absent ++ s_images s) -> pos_at (positions nslots 0 all') (slot_id sl) = im_pos (slot_image sl)).
+  { intros sl Hsl. destruct Hinv' as (_ & _ & I3 & I4 & _). cbn [s_images] in I3, I4. fold all' in I3, I4.
+    assert (Hcase : In sl all' \/ In (g sl) all').
+    { apply in_app_or in Hsl as [Hsl|Hsl]; destruct (map_slot_in id g _ sl Hsl); [left|right|left|right]; apply in_or_app; auto. }
+    rewrite Forall_forall in I4. destruct Hcase as [Hc|Hc].
+    - apply pos_at_positions; auto.
+    - pose proof (pos_at_positions nslots all' (g sl) I3 Hc (I4 _ Hc)) as Hp. unfold g in Hp.
+      rewrite (proj1 (Hfacts sl)), (proj1 (proj2 (proj2 (Hfacts sl)))) in Hp. exact Hp. }
+  split; [|split; [|split]].
+  - apply idle_judged; [exact I|assumption|exact Hps].
+  - unfold st_rel, onext20. cbn [s_images s_rr].
+    rewrite (update_positions_same _ absent) by (intros; apply Hps; apply in_or_app; left; assumption).
+    rewrite (update_positions_same _ (s_images s)) by (intros; apply Hps; apply in_or_app; right; assumption).
+    rewrite !(map_os_map id g (fun o => os_roll o vis claim ss)) by (intros sl; apply (Hfacts sl)). repeat split; auto.
+  - exact Hinv'.
+  - unfold sessions_distinct. cbn [s_images]. rewrite map_app, !map_slot_sessions, <- map_app by (intros sl; apply (Hfacts sl)). exact Hnd. Qed.
 
 Lemma positions_perm nslots a b : Permutation a b -> NoDup (map slot_id a) -> positions nslots 0 a = positions nslots 0 b.
 Proof. intros Hp Hnd. apply positions_ext. intros id. apply find_slot_perm; assumption. Qed.
@@ -1148,22 +1294,47 @@ Proof. intros Hp H. destruct k; [left; reflexivity|]. destruct fs as [|f r]; [ri
   apply frames_pos_inv in Hp as [Hf Hr]. cbn [firstn span_sum] in H. pose proof (span_bounds f Hf).
   pose proof (span_sum_nonneg _ (frames_pos_firstn k r Hr)). lia. Qed.
 
+Lemma block_advances m bits init l im f r bl :
+  ctx bits init (im_pos im) l (f :: r) -> im_closed im = false -> in_i32 bl = true ->
+  must_block_advance bl (f :: r) = true ->
+  exists ret ds ws im', image_block_poll m l im bl = Ok (ret, ds, ws, im') /\ im_pos im < im_pos im'.
+Proof. intros Hc Hcl Hbl Hm. pose proof Hc as [Htl Hi Hwf _].
+  destruct (wf_call_facts _ _ _ _ Hwf) as (Hb & Hii & Hp & Hn & Ho & Hal & Hf & Hbase).
+  pose proof (wf_frames_pos _ _ _ _ Hf) as Hfp. set (off := im_pos im mod 2 ^ bits) in *.
+  assert (H30 : 2 ^ bits <= 2 ^ 30) by (apply Z.pow_le_mono_r; lia). change (2 ^ 30) with 1073741824 in H30.
+  pose proof (wf_frames_fit' _ _ _ _ Hf ltac:(lia)) as Hfit. cbn [span_sum] in Hfit.
+  apply frames_pos_inv in Hfp as [Hf1 Hr]. pose proof (span_bounds f Hf1) as Hsp. pose proof (span_sum_nonneg r Hr) as Hrs.
+  cbn [must_block_advance] in Hm. apply andb_prop in Hm as [Hpos Hfits].
+  unfold image_block_poll. rewrite Hcl, (ctx_sel _ _ _ _ _ Hc). cbn [bind]. fold off.
+  rewrite Htl. rewrite (block_lo off bl (2 ^ bits)) by (unfold two31; lia || (right; assumption)).
+  set (lo := Z.min (off + bl) (2 ^ bits)).
+  unfold term_scan. rewrite scan_loop_eq.
+  assert (E1 : off <? lo = true) by (unfold lo; lia). rewrite E1.
+  assert (Hge : off + span f <= (if is_pad f then (if off =? off then off + span f else off)
+                                 else if off + span f >? lo then off else scan_loop off lo r (off + span f))).
+  { destruct (is_pad f) eqn:Ep; [rewrite Z.eqb_refl; lia|]. cbn [orb] in Hfits.
+    assert (E2 : off + span f >? lo = false) by (unfold lo; lia). rewrite E2. apply scan_ge. assumption. }
+  set (ro := if is_pad f then (if off =? off then off + span f else off)
+             else if off + span f >? lo then off else scan_loop off lo r (off + span f)) in *.
+  assert (E3 : ro >? off = true) by lia. rewrite E3. do 4 eexists. split; [reflexivity|].
+  unfold after_writes, set_pos. cbn [last im_pos]. lia. Qed.
+
 Lemma block_facts m bl sl : slot_ok sl -> im_closed (slot_image sl) = false -> in_i32 bl = true ->
   let o := oslot_of sl in
   let '(n, sl', blocks) := bk_block m bl sl in
   slot_rel sl sl' /\ (forall b, In b blocks -> fo_session (blk_obs b) = slot_session sl) /\
   n = im_pos (slot_image sl') - im_pos (slot_image sl) /\
-  (os_wf o = true -> (let '(_, bits, _, _, _, pos, _) := o in block_excluded bits pos bl) = false ->
+  (os_wf o = true ->
      judge_block (os_session o) bl (os_pos o) (os_off o) (os_frames o)
-       (Ok n, map blk_obs blocks, synth_ws (os_pos o) (im_pos (slot_image sl')), im_pos (slot_image sl')) = true).
+       (Ok n, map blk_obs blocks, synth_ws (os_pos o) (im_pos (slot_image sl')), im_pos (slot_image sl')) = true /\
+     (must_block_advance bl (os_frames o) = true -> os_pos o < im_pos (slot_image sl'))).
 Proof. intros Hok Hopen Hbl. cbv zeta. destruct sl as [[[[[id bits] init] se] sg] im].
   cbn [slot_image slot_log slot_session oslot_of os_session os_pos os_off os_frames] in *.
   destruct Hok as (Hb & Hse & Hsg).
   (* when the property speaks, use the exact description of the call *)
   destruct (os_wf (id, bits, init, se, sg, im_pos im, im_closed im)) eqn:Ew.
   - pose proof (os_wf_ctx id bits init se sg im Ew) as Hc.
-    destruct (in_i32 (im_pos im mod 2 ^ bits + bl)) eqn:Ei.
-    + destruct (block_run m bits init _ im _ bl Hc Hopen Ei) as (k & ds & ws & im' & Hk & Hbadm & E & Hp & Hpos & Hzero).
+    + destruct (block_run_all m bits init _ im _ bl Hc Hopen (or_intror Hbl)) as (k & ds & ws & im' & Hk & Hbadm & E & Hp & Hpos & Hzero).
       unfold bk_block. cbn [slot_log slot_image]. rewrite E. cbn [slot_with slot_image].
       pose proof (block_static _ _ _ _ _ E) as (S1 & S2 & S3).
       set (fs := frames_at bits [sg] (im_pos im)) in *. set (len := span_sum (consumed fs k)) in *.
@@ -1174,7 +1345,11 @@ Proof. intros Hok Hopen Hbl. cbv zeta. destruct sl as [[[[[id bits] init] se] sg
         split; [repeat split; auto; congruence|]. split; [congruence|]. repeat split; try reflexivity. rewrite S1. reflexivity.
       * intros b Hb'. apply in_map_iff in Hb' as (d & <- & _). cbn [blk_obs fo_session]. exact Hse.
       * lia.
-      * intros _ _. unfold judge_block. apply (any_upto_intro _ _ k Hk). unfold judge_block_run. fold len.
+      * intros _. split.
+        2:{ intros Hm. destruct fs as [|f0 r0] eqn:Efs; [discriminate|].
+            destruct (block_advances m bits init _ im f0 r0 bl Hc Hopen Hbl Hm) as (ret2 & ds2 & ws2 & im2 & E2 & Hadv).
+            rewrite E in E2. inversion E2; subst. exact Hadv. }
+        unfold judge_block. apply (any_upto_intro _ _ k Hk). unfold judge_block_run. fold len.
         rewrite out_eqb_refl_ok, Hbadm. cbn [andb].
         assert (Hw : writes_ok (im_pos im) (im_pos im + len) [] (synth_ws (im_pos im) (im_pos im')) (im_pos im') = true).
         { unfold writes_ok, synth_ws. rewrite Hp. destruct (im_pos im + len =? im_pos im) eqn:Ez; cbn [nondecr last forallb].
@@ -1187,21 +1362,13 @@ Proof. intros Hok Hopen Hbl. cbv zeta. destruct sl as [[[[[id bits] init] se] sg
            cbn [map blk_obs list_eqb fst snd]. unfold fobs_eqb. rewrite !Z.eqb_refl, out_eqb_refl_ok, Hse, Z.eqb_refl. reflexivity.
         -- assert (Hl0 : len = 0) by lia. destruct (Hzero Hl0) as (Hds0 & _). rewrite Hds0. cbn [map].
            destruct (span_sum_zero fs k Hfp Hl0) as [Hk0|Hfs0]; [rewrite Hk0; reflexivity|rewrite Hfs0; destruct k; reflexivity].
-    + (* excluded: nothing to judge; the call panics (debug) or does nothing (release) *)
-      pose proof (block_poll_judged m _ bits init im _ bl Hc Hopen Hbl) as Hj. cbv zeta in Hj. rewrite Ei in Hj.
-      unfold bk_block. cbn [slot_log slot_image]. destruct m; rewrite Hj.
-      * split; [apply slot_rel_refl; [repeat split; auto|assumption]|]. split; [intros b []|]. split; [cbn; lia|].
-        intros _ He. unfold block_excluded in He. rewrite Ei in He. discriminate.
-      * split; [apply slot_rel_refl; [repeat split; auto|assumption]|]. split; [intros b []|]. split; [cbn; lia|].
-        intros _ He. unfold block_excluded in He. rewrite Ei in He. discriminate.
   - (* nothing to judge: only the shape of the result matters *)
     unfold bk_block, image_block_poll. cbn [slot_log slot_image]. rewrite Hopen.
     set (l := mk_log bits init se [sg]).
     assert (Hidle : slot_rel (id, bits, init, se, sg, im) (id, bits, init, se, sg, im)) by (apply slot_rel_refl; [repeat split; auto|assumption]).
     destruct (sel l (im_pos im)) as [[fs off]| | | |] eqn:Es; cbn [bind];
       try (split; [exact Hidle|]; split; [intros b []|]; split; [cbn; lia|intros; discriminate]).
-    destruct (add32 m off bl) as [s0| | | |]; cbn [bind];
-      try (split; [exact Hidle|]; split; [intros b []|]; split; [cbn; lia|intros; discriminate]).
+    set (s0 := sat_add32 off bl).
     assert (Hfp : frames_pos fs).
     { unfold sel in Es. destruct ((0 <=? index_by_position (im_pos im) (bits_of (l_tlen l))) && (index_by_position (im_pos im) (bits_of (l_tlen l)) <? PARTITION_COUNT));
         [|discriminate]. inversion Es. apply avail_pos. }
@@ -1218,8 +1385,8 @@ Definition jb_of (bl : Z) (sl : oslot) (_ : Z) (share : list fobs) (p' : Z) : bo
   if os_wf sl then
     let '(_, bits, _, _, _, pos, _) := sl in
     let ob1 := (Ok (p' - pos), share, synth_ws pos p', p') in
-    if block_excluded bits pos bl then true
-    else judge_block (os_session sl) bl pos (os_off sl) (os_frames sl) ob1
+    judge_block (os_session sl) bl pos (os_off sl) (os_frames sl) ob1
+    && (if must_block_advance bl (os_frames sl) then pos <? p' else true)
   else true.
 
 Lemma block_pass m bl ps : in_i32 bl = true -> forall imgs read,
@@ -1255,8 +1422,8 @@ Proof. intros Hbl. induction imgs as [|sl r IH]; intros read Hok Hop Hnd; cbn [b
         cbn [fst] in *. rewrite I3a, andb_true_r.
         unfold jb_of. destruct (os_wf (oslot_of sl)) eqn:Ew; [|reflexivity].
         destruct sl as [[[[[id bits] init] se] sg] im]. cbn [oslot_of] in *.
-        destruct (block_excluded bits (im_pos im) bl) eqn:Ex; [reflexivity|].
-        cbn [os_session os_pos os_off os_frames slot_image] in *. rewrite <- F3. apply F4; [reflexivity|first [exact Ex|reflexivity]].
+        cbn [os_session os_pos os_off os_frames slot_image] in *. rewrite <- F3. destruct (F4 eq_refl) as [F4a F4b]. rewrite F4a. cbn [andb].
+        destruct (must_block_advance bl (frames_at bits [sg] (im_pos im))); [|reflexivity]. specialize (F4b eq_refl). lia.
       * intros x Hx. apply in_map_iff in Hx as (b & <- & Hb'). apply F2. assumption.
       * destruct (map blk_obs bs2) as [|x rest] eqn:Em; [exact I|].
         assert (Hx : In x (map blk_obs bs2)) by (rewrite Em; left; reflexivity). apply in_map_iff in Hx as (b & <- & Hb').
@@ -1318,7 +1485,12 @@ Proof. intros Hbl. destruct st as [[absent s] bs]. destruct ost as [[[oa op] orr
   - unfold sessions_distinct. cbn [s_images]. rewrite map_app, Hse_eq, <- map_app. exact Hnd. Qed.
 
 (* ---- any operation, any history ---- *)
-Definition sop_ok (o : sop) : Prop := match o with SBlock bl => in_i32 bl = true | _ => True end.
+Definition sop_ok (o : sop) : Prop :=
+  match o with
+  | SBlock bl => in_i32 bl = true
+  | SRoll _ _ _ ss => Forall (fun s : fspec => let '(typ, flags, flen, k, dtid) := s in 1 <= flen) ss
+  | _ => True
+  end.
 
 Theorem sstep_judged m nslots ost st o : sop_ok o ->
   st_rel ost st -> st_inv nslots st -> sessions_distinct st ->
@@ -1330,7 +1502,8 @@ Proof. intros Ho. destruct o.
   - apply sblock_step. exact Ho.
   - apply sgrow_step.
   - apply sadd_step.
-  - apply sremove_step. Qed.
+  - apply sremove_step.
+  - apply sroll_step. exact Ho. Qed.
 
 Theorem srun_judged m nslots : forall ops ost st, Forall sop_ok ops ->
   st_rel ost st -> st_inv nslots st -> sessions_distinct st ->
@@ -1347,13 +1520,6 @@ Definition sslot_ok (x : sslot) : Prop :=
   let '(n, off, vis, claim, ss) := sg in
   0 <= bits /\ 0 <= off /\ Forall (fun s => let '(typ, flags, flen, k, dtid) := s in 1 <= flen) ss.
 Definition sslot_session (x : sslot) : Z := let '(_, _, se, _, _) := x in se.
-
-Lemma mk_frames_ok init se n : forall ss off,
-  Forall (fun s : fspec => let '(typ, flags, flen, k, dtid) := s in 1 <= flen) ss ->
-  frames_pos (mk_frames init se n off ss) /\ Forall (fun f => f_session f = se) (mk_frames init se n off ss).
-Proof. induction ss as [|[[[[typ flags] flen] k] dtid] r IH]; intros off H; [split; constructor|].
-  inversion H; subst. cbn [mk_frames]. destruct (IH (off + span (mk_frame init se n off (typ, flags, flen, k, dtid))) H3) as [A B].
-  split; constructor; auto. Qed.
 
 Lemma build_slots_facts : forall ss id0, Forall sslot_ok ss ->
   Forall slot_ok (build_slots id0 ss) /\
